@@ -37,6 +37,8 @@ fn main() {
             }
         },
         "run" => run(&args),
+        "corpus" => corpus(&args),
+        "fuzzcase" => fuzzcase(&args),
         "replay" => replay(&args),
         other => {
             eprintln!("unknown command {other}");
@@ -238,5 +240,68 @@ fn replay(args: &[String]) {
         std::process::exit(1);
     } else {
         println!("replay of {path}: property {prop} holds on this case now");
+    }
+}
+
+/// Write a seed corpus for a fuzz target (generated at run time from the model encoder).
+fn corpus(args: &[String]) {
+    use rtcpmon::source::Src;
+    let target = arg(args, "--target").unwrap_or_else(|| "bytes".into());
+    let dir = arg(args, "--dir").expect("--dir");
+    let seed: u64 = arg(args, "--seed").and_then(|s| s.parse().ok()).unwrap_or(1);
+    std::fs::create_dir_all(&dir).expect("corpus dir");
+    let mut s = Src::prng(rtcpmon::source::mix(seed, 0xc0ffee));
+    let n = 400;
+    for i in 0..n {
+        let data: Vec<u8> = if target == "bytes" {
+            match i % 4 {
+                0 => rtcpmon::gen::bytes::valid_compound(&mut s),
+                1 => rtcpmon::gen::bytes::hostile(&mut s),
+                _ => rtcpmon::gen::bytes::valid_packet(&mut s),
+            }
+        } else {
+            let l = 64 + s.below(1500);
+            s.fill(l)
+        };
+        if data.len() <= 4096 {
+            std::fs::write(format!("{dir}/seed-{i:04}"), &data).expect("write seed");
+        }
+    }
+    println!("wrote {n} seed inputs for target {target} to {dir}");
+}
+
+/// Run the monitors of a property on a recorded fuzzer artifact, write replay files.
+fn fuzzcase(args: &[String]) {
+    let target = arg(args, "--target").unwrap_or_else(|| "bytes".into());
+    let prop_s = arg(args, "--prop").expect("--prop");
+    let prop: &'static str = Box::leak(prop_s.into_boxed_str());
+    let file = arg(args, "--file").expect("--file");
+    let seed: u64 = arg(args, "--seed").and_then(|s| s.parse().ok()).unwrap_or(1);
+    let replays = arg(args, "--replays").unwrap_or_else(|| "/verif/out/replays".to_string());
+    let data = std::fs::read(&file).expect("read artifact");
+    let distinct = Distinct::new(16);
+    let mut ctx = Ctx::new(prop, &distinct, seed, true, 1.0);
+    rtcpmon::fuzz::run_one(&mut ctx, &target, prop, &data);
+    let _ = std::fs::create_dir_all(&replays);
+    for (k, v) in ctx.violations.iter().enumerate() {
+        let sighash = rtcpmon::ctx::fnv(v.signature.as_bytes()) & 0xffff_ffff;
+        let path = format!("{replays}/{prop}-fuzz-{sighash:08x}-{k}.json");
+        let rj = J::obj()
+            .set("property", prop)
+            .set("signature", v.signature.as_str())
+            .set("clause", v.clause.as_str())
+            .set("expected", v.expected.as_str())
+            .set("observed", v.observed.as_str())
+            .set("seed", seed)
+            .set("tool", "libfuzzer")
+            .set("artifact", file.as_str())
+            .set("case", v.case.clone());
+        let _ = std::fs::write(&path, rj.to_pretty());
+        println!("RAW-VIOLATION property={prop} signature={} replay={path}", v.signature);
+    }
+    if ctx.violations.is_empty() {
+        println!("artifact {file}: the {prop} monitors are silent on it");
+    } else {
+        std::process::exit(1);
     }
 }
